@@ -408,13 +408,8 @@ def work(job):
                 same = wst == status and (wst == "fail" or (wpay[0] == payload[0] and str(wpay[1]) == str(payload[1])))
                 if same:
                     continue
-                if not default_order or wst != status:
-                    wrec["violation"] = {"kind": "wrapper", "why": f"the public wrapper ({tag}) returned {'fail' if wst == 'fail' else short(wpay[0], 120)} but the procedure itself returned {'fail' if status == 'fail' else short(payload[0], 120)} on the same input"}
-                    wrec["status"] = "ok"
-                    wrec["est"] = "fail" if wst == "fail" else str(wpay[0])
-                    wrec["revent"] = None if wst == "fail" else str(wpay[1])
-                    res.append(wrec)
-                    continue
+                if wst == "fail":
+                    continue  # 'fail' is always an admissible outcome
                 # another valid topological order may give another, equally right expression: check it semantically
                 wrec.update(status="ok", est=str(wpay[0]), revent=str(wpay[1]))
                 try:
@@ -567,7 +562,7 @@ def run() -> int:
         "inputs that the library's own validation function rejects are skipped (counted); any other exception is a violation",
         "'fail' (None) is accepted",
     ]
-    rep.assumptions.append("every third accepted case is repeated through the public wrappers unconditional_cft / conditional_cft (CFTDomain objects, value-marked event variables) with the explicit ordering - the result must equal the procedure's own - and with ordering=None (graph.topological_sort()): a different expression is then checked semantically like any other output")
+    rep.assumptions.append("every third accepted case is repeated through the public wrappers unconditional_cft / conditional_cft (CFTDomain objects, value-marked event variables) with the explicit ordering and with ordering=None (graph.topological_sort()): an exception is a violation, and an expression that differs from the procedure's own result is checked semantically like any other output ('fail' is always admissible)")
     rep.rule = "cases = (target graph, event, domains); non-trivial = an expression was returned and solver-checked; distinct by (graph key, event, domains)"
     for job, st, res in pmap(work, jobs_for(t)):
         if st != "ok":
